@@ -5,7 +5,8 @@ import random
 from vlib import xh
 from vlib.common import Run, Stats
 
-FUNCS = ["problog.clausedb.ClauseIndex.{append,find,_add}", "problog.util.OrderedSet.{|=,&,-,__iter__} (through find)"]
+FUNCS = ["problog.clausedb.ClauseIndex.{append,find,_add}", "problog.util.OrderedSet.{|=,&,-,__iter__} (through find)",
+         "problog.engine_stack.DefineCache.{_reindex_vars,__setitem__,__contains__,activate,getEvalNode} / VarReindex / NestedDict"]
 
 PREAMBLE = '''
 from problog.clausedb import ClauseIndex
@@ -55,6 +56,68 @@ def expected(clauses, call):
     return out
 
 
+# ---- part B: tabling keys (DefineCache) identify exactly the variants of a goal ----------------
+from problog.engine_stack import DefineCache
+
+
+def V(j):
+    """variable identity chosen by a symbolic selector"""
+    if j == 0:
+        return -1
+    if j == 1:
+        return -2
+    return -3
+
+
+def mk_arg(shape, vs, A, B):
+    """vs: list of variable ids consumed from the front"""
+    if shape == 0:
+        return vs.pop(0)
+    if shape == 1:
+        return Term('f', vs.pop(0))
+    if shape == 2:
+        return A
+    if shape == 3:
+        return Term('g', vs.pop(0), vs.pop(0))
+    if shape == 4:
+        return Term('f', A)
+    return B
+
+
+def canon(args):
+    """the goal with its variables numbered by first occurrence (reference variant key)"""
+    names = {}
+    out = []
+
+    def walk(t):
+        if isinstance(t, int):
+            if t not in names:
+                names[t] = len(names)
+            return ('v', names[t])
+        return (t.functor,) + tuple(walk(x) for x in t.args)
+    for a in args:
+        out.append(walk(a))
+    return out
+
+
+def variant_ok(shapes1, ids1, shapes2, ids2):
+    A, B = Term('a'), Term('b')
+    v1 = [V(i) for i in ids1]
+    v2 = [V(i) for i in ids2]
+    g1 = ('p', [mk_arg(sh, v1, A, B) for sh in shapes1])
+    g2 = ('p', [mk_arg(sh, v2, A, B) for sh in shapes2])
+    same = canon(g1[1]) == canon(g2[1])
+    c = DefineCache({})
+    c[g1] = {}
+    if (g2 in c) != same:
+        return False
+    c2 = DefineCache({})
+    c2.activate(g1, 'node')
+    if (c2.getEvalNode(g2) is not None) != same:
+        return False
+    return True
+
+
 def find_ok(kinds, arity, calls):
     A, B = Term('a'), Term('b')     # fresh per path: Term caches its hash
     ci, clauses = build(kinds, arity, A, B)
@@ -67,15 +130,16 @@ def find_ok(kinds, arity, calls):
 '''
 
 
-def harness(idx, nclauses, arity, ncalls, first=None):
-    """first: concrete kind of the first argument of the first clause (splits the selector space of a condition by 3)"""
+def harness(idx, nclauses, arity, ncalls, prefix=()):
+    """prefix: concrete kinds of the leading selectors (splits the selector space of a condition: at most 4 stay symbolic)"""
     names = []
     kinds = []
+    pre_vals = list(prefix)
     for c in range(nclauses):
         row = []
         for a in range(arity):
-            if first is not None and c == 0 and a == 0:
-                row.append(str(first))
+            if pre_vals:
+                row.append(str(pre_vals.pop(0)))
                 continue
             n = "k%d_%d" % (c, a)
             names.append(n)
@@ -85,6 +149,9 @@ def harness(idx, nclauses, arity, ncalls, first=None):
     for q in range(ncalls):
         row = []
         for a in range(arity):
+            if pre_vals:
+                row.append(str(pre_vals.pop(0)))
+                continue
             n = "q%d_%d" % (q, a)
             names.append(n)
             row.append(n)
@@ -94,7 +161,34 @@ def harness(idx, nclauses, arity, ncalls, first=None):
     body = "    return find_ok([%s], %d, [%s])" % (", ".join(kinds), arity, ", ".join(calls))
     name = "h_ci_%d" % idx
     src = 'def %s(%s) -> bool:\n    """\n    pre: %s\n    post: _\n    """\n%s\n' % (name, sig, pre, body)
-    return xh.Harness(name, src, {"clauses": nclauses, "arity": arity, "calls": ncalls, "first": first})
+    return xh.Harness(name, src, {"clauses": nclauses, "arity": arity, "calls": ncalls, "first": "".join(str(x) for x in prefix) or None})
+
+
+NVARS = {0: 1, 1: 1, 2: 0, 3: 2, 4: 0, 5: 0}
+
+
+def variant_harness(idx, shapes1, shapes2):
+    n1 = sum(NVARS[x] for x in shapes1)
+    n2 = sum(NVARS[x] for x in shapes2)
+    names = ["a%d" % i for i in range(n1)] + ["b%d" % i for i in range(n2)]
+    sig = ", ".join("%s: int" % n for n in names)
+    hi = 2 if len(names) <= 3 else 1        # 3 identities up to 3 variable slots (27 paths), 2 beyond
+    pre = " and ".join("0 <= %s <= %d" % (n, hi) for n in names) or "True"
+    body = "    return variant_ok(%r, [%s], %r, [%s])" % (list(shapes1), ", ".join(names[:n1]), list(shapes2), ", ".join(names[n1:]))
+    name = "h_var_%d" % idx
+    src = 'def %s(%s) -> bool:\n    """\n    pre: %s\n    post: _\n    """\n%s\n' % (name, sig, pre, body)
+    return xh.Harness(name, src, {"part": "variant", "shapes1": list(shapes1), "shapes2": list(shapes2)})
+
+
+def variant_harnesses(tier, seed):
+    rng = random.Random("c13/%s" % seed)
+    sh = list(itertools.product(range(6), repeat=2))
+    with_vars = [x for x in sh if sum(NVARS[y] for y in x) >= 1]
+    pairs = [(x, x) for x in with_vars if sum(NVARS[y] for y in x) <= 3]
+    others = [(x, y) for x in with_vars for y in with_vars if x != y and sum(NVARS[z] for z in x + y) <= 4]
+    rng.shuffle(others)
+    pairs += others[: (12 if tier == "quick" else 400)]
+    return [variant_harness(i, a, b) for i, (a, b) in enumerate(pairs)]
 
 
 def main(tier, seed):
@@ -102,7 +196,10 @@ def main(tier, seed):
               "MECHANISM ONLY: the real ClauseIndex (first-argument style indexing with OrderedSet unions/intersections) is filled "
               "with up to 4 clause heads whose argument kinds (variable, constant a, constant b) are symbolic and queried with 1-2 "
               "symbolic call patterns; CrossHair decides over all kind combinations that find() returns exactly the clauses whose "
-              "heads can match, in program order, and that an earlier find() does not change a later one")
+              "heads can match, in program order, and that an earlier find() does not change a later one. Second mechanism: the "
+              "tabling cache (DefineCache) is filled / activated with a non-ground goal and asked for another goal of enumerated shape "
+              "with SYMBOLIC variable identities: it must answer 'present' exactly when the two goals are variants (equal up to a "
+              "consistent renaming of variables), for the table of completed goals and for the table of active goals")
     run.functions = FUNCS
     run.assumptions = ["whole-program agreement with SWI/Yap on arbitrary pure Prolog is NOT claimed (no Prolog system in the sandbox and "
                        "no symbolic dimension for a deterministic program); the clause-selection-order mechanism is what is decided here",
@@ -110,18 +207,41 @@ def main(tier, seed):
                        "argument kinds concretised per path by an if-chain over a symbolic selector"]
     hs = []
     i = 0
-    for ncl, ar, nq in ([(1, 1, 1), (2, 1, 1), (3, 1, 1), (3, 1, 2), (2, 2, 1), (3, 2, 1), (2, 2, 2)] +
-                        ([(4, 1, 2), (3, 2, 2), (4, 2, 1)] if tier == "thorough" else [])):
+    for ncl, ar, nq in ([(1, 1, 1), (2, 1, 1), (3, 1, 1), (3, 1, 2), (2, 2, 1)] +
+                        ([(3, 2, 1), (2, 2, 2), (4, 1, 2), (3, 2, 2), (4, 2, 1)] if tier == "thorough" else [])):
         nsel = ncl * ar + nq * ar
-        for first in ([None] if nsel <= 4 else [0, 1, 2]):
+        for prefix in itertools.product(range(3), repeat=max(0, nsel - 4)):
             i += 1
-            hs.append(harness(i, ncl, ar, nq, first))
+            hs.append(harness(i, ncl, ar, nq, prefix))
+    nfind = len(hs)
+    hs += variant_harnesses(tier, seed)
     timeout = 60 if tier == "quick" else 600
     st = Stats()
     res, cpu = xh.run(hs, PREAMBLE, per_condition_timeout=timeout, per_module=1)
     byname = dict((h.name, h) for h in hs)
     for name, (verdict, detail) in sorted(res.items()):
         h = byname[name]
+        if h.meta.get("part") == "variant":
+            okey = "variant:%s:%s" % (h.meta["shapes1"], h.meta["shapes2"])
+            if verdict == "confirmed":
+                st.ob("proved", key=okey)
+            elif verdict == "inconclusive":
+                st.ob("inconclusive", key=okey, note="%s: %s" % (okey, detail[:60]))
+            else:
+                call = xh.parse_call(detail)
+                ok = False
+                if call:
+                    kind, val = xh.call_harness(PREAMBLE, h, call[1], call[2])
+                    ok = kind == "exc" or val is False
+                if ok:
+                    st.ob("refuted", key=okey)
+                    st.violation("tabling-key:variants", "DefineCache: goal shapes %s / %s with variable selectors %s: the goals are %s but the cache "
+                                 "treats them otherwise (shape codes 0 V, 1 f(V), 2 a, 3 g(V,V), 4 f(a), 5 b)" % (
+                                     h.meta["shapes1"], h.meta["shapes2"], call[1:], "variants or not"),
+                                 {"kind": "xh", "harness": h.source, "name": h.name, "args": list(call[1]), "kwargs": call[2]})
+                else:
+                    st.ob("inconclusive", key=okey, note="counterexample did not replay: %s" % detail[:100])
+            continue
         okey = "clauses=%d arity=%d calls=%d first=%s" % (h.meta["clauses"], h.meta["arity"], h.meta["calls"], h.meta["first"])
         if verdict == "confirmed":
             st.ob("proved", key=okey)
@@ -145,8 +265,9 @@ def main(tier, seed):
     st["queries"] += len(hs)
     st["programs"] = len(hs)
     run.merge(st)
-    run.bounds = {"crosshair_conditions": len(hs), "max_clauses": 4, "max_arity": 2, "per_condition_timeout_s": timeout}
-    run.extra["rule"] = "one obligation per (number of clauses, arity, number of calls, kind of the first head argument) configuration; all other argument-kind combinations inside"
+    run.bounds = {"crosshair_conditions": len(hs), "clause_index_conditions": nfind, "variant_conditions": len(hs) - nfind,
+                  "max_clauses": 4, "max_arity": 2, "variable_ids": 3, "per_condition_timeout_s": timeout}
+    run.extra["rule"] = "one obligation per (number of clauses, arity, number of calls, concrete prefix of argument kinds) configuration; the last four argument kinds are symbolic"
     return run.finish()
 
 
